@@ -10,7 +10,8 @@ EXPLANATION = (
     'guard of the matched-blocks RwLock (the global sync-progress lock); (L2) no operation splits its progress mutations over '
     'two critical sections; (L3) the acquired-while-holding graph over all RwLocks and DashMaps is acyclic, with no re-entrant '
     'acquisition of a held lock and no DashMap guard live across a call that locks the same map; (L4) the three index queries '
-    'read only through one RocksDB snapshot.')
+    'read only through one RocksDB snapshot; (L5) in every function that mutates sync progress, the progress it reads to decide '
+    '(min filtered number, pending matched ranges, scripts) is read under the same lock (no stale check-then-act).')
 NOT_DECIDED = ('Interactions outside the listed mutators (e.g. add_fetched_tx vs filter_block — see C03); fairness; that the '
                'critical sections compute the right thing.  Given std RwLock semantics L1+L2 imply mutual exclusion of the '
                'whole operations, L3 deadlock freedom of the lock graph, L4 single-point-in-time reads.')
@@ -18,6 +19,10 @@ NOT_DECIDED = ('Interactions outside the listed mutators (e.g. add_fetched_tx vs
 SINKS = ['Storage::update_filter_scripts', 'Storage::add_matched_blocks', 'Storage::remove_matched_blocks',
          'Storage::clear_matched_blocks', 'Storage::update_min_filtered_block_number', 'Storage::update_block_number',
          'Storage::filter_block', 'Storage::rollback_to_block']
+# progress the mutators' decisions are based on (Storage::is_filter_scripts_empty is deliberately absent: it only short-cuts a
+# handler when nothing is registered; reading it early can at most ignore a message)
+PROGRESS_READERS = ['Storage::get_min_filtered_block_number', 'Storage::get_earliest_matched_blocks', 'Storage::get_latest_matched_blocks',
+                    'Storage::get_matched_blocks', 'Storage::get_filter_scripts', 'Storage::get_scripts_hash']
 EXEMPT = {'Storage::init_genesis_block': 'runs once before any network or RPC thread is started'}
 QUERIES = ['<BlockFilterRpcImpl as BlockFilterRpc>::get_cells', '<BlockFilterRpcImpl as BlockFilterRpc>::get_transactions',
            '<BlockFilterRpcImpl as BlockFilterRpc>::get_cells_capacity']
@@ -59,6 +64,24 @@ def run(ctx):
     ctx.floor('C17.L1', 'network/RPC start calls in RunConfig::execute', len(starts), 2)
     for sb, st in starts:
         ctx.ob('C17.L1', RC.name, 'init_genesis_block dominates %s' % mir.callee_key(st.callee), cfg.dominates(ig[0][0], sb), at=st.span)
+
+    # ---- L5 check-then-act: the progress a mutation is decided on is read under the same lock ---------------------------
+    # (a stale read before the lock — e.g. the continuity test `min_filtered + 1 == start_number` — lets a rewind by a fork rollback
+    # or set_scripts that ran in between be overwritten: no serial order explains the result)
+    nread = 0
+    for b in P.bodies:
+        if b.promoted is not None:
+            continue
+        keys = P.call_keys(b)
+        if not any(k in SINKS for _, k, _ in keys):
+            continue
+        for bid, k, t in keys:
+            if k not in PROGRESS_READERS:
+                continue
+            nread += 1
+            held = bool(L.held_at(b, bid, 'L_mb', 'write')) or L._last_body_protected(b, bid)
+            ctx.ob('C17.L5', b.name, 'read of sync progress (%s) in a function that mutates it happens under the matched-blocks write lock' % k, held, at=t.span)
+    ctx.floor('C17.L5', 'sync-progress reads in mutating functions', nread, 4)
 
     # ---- L2 ------------------------------------------------------------------------------
     acq = L.acquire_sets()
